@@ -105,7 +105,9 @@ fn judge(exp: &Outcome, obs: &Result<Tgt, String>) -> Vec<(String, String)> {
             v.extend(tgt_diffs(&exp.result, o).into_iter().map(|(k, w)| (format!("C04 apply_to: result differs from the reference: {k}"), w)));
             v
         }
-        (Verdict::Refuse | Verdict::RefuseBelowRemoved, Err(_)) => vec![],
+        (Verdict::Refuse | Verdict::RefuseBelowRemoved | Verdict::RefuseOrIgnore, Err(_)) => vec![],
+        // ignoring the node is accepted: then nothing else may have changed either
+        (Verdict::RefuseOrIgnore, Ok(o)) => tgt_diffs(&exp.result, o).into_iter().map(|(k, w)| (format!("C04 apply_to: result differs from the reference: {k}"), w)).collect(),
     }
 }
 
@@ -199,7 +201,7 @@ fn slice_cfg(c: GenCfg) -> GenCfg { if in_slice() { maps::slice::small(c) } else
 fn text_expressible(d: &MapsDiff) -> bool { !in_slice() && refmodel::diff_comments(d).iter().all(|c| emit::comment_expressible(c)) }
 
 fn count_leg(rep: &mut Report, prefix: &str, r: &LegResult) {
-    rep.count(&format!("{prefix}.expected_{}", match r.expected { Verdict::Ok => "ok", Verdict::Refuse => "refusal", Verdict::RefuseBelowRemoved => "refusal_below_removed" }));
+    rep.count(&format!("{prefix}.expected_{}", match r.expected { Verdict::Ok => "ok", Verdict::Refuse => "refusal", Verdict::RefuseBelowRemoved => "refusal_below_removed", Verdict::RefuseOrIgnore => "refusal_or_ignored(a node that states nothing for an absent key)" }));
     rep.count(&format!("{prefix}.observed_{}", match r.seen { Seen::Applied => "ok", Seen::Refused => "refusal", Seen::Panicked => "panic", Seen::NotRun => "not_run" }));
 }
 
@@ -267,7 +269,7 @@ fn hostile_case(rng: &mut Rng, rep: &mut Report, i: u64, cells: &[Cell]) {
     if h.already_applied { rep.count(&format!("hostile.misfit_but_target_already_has_the_new_value.{}", if cell.kind == gen::Kind::Name { "name" } else { "comment" })); }
     let check = |leg: &str, r: &LegResult, text: bool| {
         let want = match gen::table_expect(cell, text) { Expect::Ok => Verdict::Ok, Expect::Refuse => Verdict::Refuse, Expect::RefuseBelowRemoved => Verdict::RefuseBelowRemoved };
-        if r.expected != want {
+        if r.expected != want && !(matches!(want, Verdict::Refuse | Verdict::RefuseBelowRemoved) && r.expected == Verdict::RefuseOrIgnore) {
             eprintln!("HARNESS-ERROR C04 oracle self-check: cell table says {want:?}, recursive reference says {:?} for cell {label} ({leg} leg) at {}\n--- target\n{}--- diff\n{}", r.expected, h.site, h.tgt.maps.render(), h.diff.render());
             std::process::exit(3);
         }
@@ -591,7 +593,10 @@ fn canaries() {
     if !refuses(&|x| x.classes.get_mut("b").unwrap().name = Act::Edit("other".into(), "B2".into()), Why::OldNameMismatch) { bad("reference accepts an Edit with a wrong old name"); }
     if !refuses(&|x| x.classes.get_mut("b").unwrap().name = Act::Remove("other".into()), Why::OldNameMismatch) { bad("reference accepts a Remove with a wrong old name"); }
     if !refuses(&|x| x.classes.get_mut("a").unwrap().name = Act::Add("X".into()), Why::AddNameCollides) { bad("reference accepts a colliding Add"); }
-    if !refuses(&|x| { x.classes.insert("zz".into(), maps::ClassDiff::default()); }, Why::AbsentEntry) { bad("reference accepts None on an absent class"); }
+    // a node that states nothing for an absent key: either outcome; as soon as it states something (a comment action, a child action) it must be refused
+    { let mut x = d.clone(); x.classes.insert("zz".into(), maps::ClassDiff::default()); let o = ref_apply(&x, &a, 1); if o.verdict() != Verdict::RefuseOrIgnore || o.result.maps.classes.contains_key("zz") { bad("reference: None that states nothing on an absent class is not 'refuse or ignore'"); } }
+    if !refuses(&|x| { x.classes.insert("zz".into(), maps::ClassDiff { comment: Act::Remove("c".into()), ..Default::default() }); }, Why::AbsentEntry) { bad("reference accepts None + comment action on an absent class"); }
+    if !refuses(&|x| { let mut c = maps::ClassDiff::default(); c.fields.insert(("f".into(), "I".into()), maps::FieldDiff { name: Act::Edit("p".into(), "q".into()), comment: Act::None }); x.classes.insert("zz".into(), c); }, Why::AbsentEntry) { bad("reference accepts None with a stating child on an absent class"); }
     if !refuses(&|x| x.classes.get_mut("c").unwrap().fields.values_mut().next().unwrap().name = Act::Edit("u".into(), "v".into()), Why::AbsentEntry) { bad("reference accepts an Edit below an added class"); }
     if !refuses(&|x| x.classes.get_mut("b").unwrap().comment = Act::Remove("other".into()), Why::OldCommentMismatch) { bad("reference accepts a comment Remove with a wrong old comment"); }
     if !refuses(&|x| x.classes.get_mut("b").unwrap().comment = Act::Add("n".into()), Why::AddCommentCollides) { bad("reference accepts a colliding comment Add"); }
